@@ -145,7 +145,7 @@ fn validator_bodies(cx: &mut Ctx) {
             cx.fail(rule, &format!("{}/validate_arguments/{}", rule, fld), &f.loc(va), &format!("validate_arguments does not include `{}` in the checked names: a duplicate there is accepted", fld));
         }
     }
-    if t.contains("if!all_arg_names.insert(arg_name){returnErr(LexicalError{error:LexicalErrorType::DuplicateArgumentError(arg_name.to_string()),location:range.start(),});}") && t.contains("letarg_name=arg.arg.as_str();") && t.contains("letrange=arg.range;") {
+    if t.contains("if!all_arg_names.insert(arg_name){returnErr(LexicalError{error:LexicalErrorType::DuplicateArgumentError(arg_name.to_string()),location:range.start()});}") && t.contains("letarg_name=arg.arg.as_str();") && t.contains("letrange=arg.range;") {
         cx.ok(rule, "duplicate => Err(DuplicateArgumentError(name)) at the parameter's start");
     } else {
         cx.fail(rule, &format!("{}/validate_arguments/error", rule), &f.loc(va), "validate_arguments does not return DuplicateArgumentError at the duplicate parameter's start when insert() fails");
@@ -558,7 +558,7 @@ fn lexer_error_sites(cx: &mut Ctx) {
     }
     // default arm: the error is the else-branch of is_emoji_presentation
     let default = m.arms.iter().find(|a| sm::tsc(&a.pat) == "_").map(|a| sm::tsc(&a.body)).unwrap_or_default();
-    if !default.trim_start_matches('{').starts_with("ifis_emoji_presentation(c){") || !default.contains("}else{letc=self.next_char();returnErr(LexicalError{error:LexicalErrorType::UnrecognizedToken{tok:c.unwrap()},location:self.get_pos(),});}") {
+    if !default.trim_start_matches('{').starts_with("ifis_emoji_presentation(c){") || !default.contains("}else{letc=self.next_char();returnErr(LexicalError{error:LexicalErrorType::UnrecognizedToken{tok:c.unwrap()},location:self.get_pos()});}") {
         cx.fail(rule, &format!("{}/default-arm", rule), &lx.rel, "the default arm does not reject every non-emoji character with UnrecognizedToken");
     }
     // strings
@@ -566,8 +566,8 @@ fn lexer_error_sites(cx: &mut Ctx) {
         None => cx.anchor_missing(rule, "lex_string"),
         Some(f) => {
             let t = sm::tsx(&f.block);
-            let eol = t.contains("ifc=='\\n'&&!triple_quoted{returnErr(LexicalError{error:LexicalErrorType::OtherError(\"EOL while scanning string literal\".to_owned(),),location:self.get_pos(),});}");
-            let eof = t.contains("_=>returnErr(LexicalError{error:iftriple_quoted{LexicalErrorType::Eof}else{LexicalErrorType::StringError},location:self.get_pos(),}),");
+            let eol = t.contains("ifc=='\\n'&&!triple_quoted{returnErr(LexicalError{error:LexicalErrorType::OtherError(\"EOL while scanning string literal\".to_owned()),location:self.get_pos()});}");
+            let eof = t.contains("_=>returnErr(LexicalError{error:iftriple_quoted{LexicalErrorType::Eof}else{LexicalErrorType::StringError},location:self.get_pos()}),");
             if eol {
                 cx.ok(rule, "unterminated single-quoted string at end of line => Err");
             } else {
@@ -630,13 +630,13 @@ fn numeric_shape(cx: &mut Ctx) {
             cx.fail(rule, &format!("{}/{}", rule, name), &lx.loc(f), &format!("the `{}` check is missing or no longer precedes the consumption", name));
         }
     }
-    if t.contains("letstart_is_zero=self.window[0]==Some('0');") && t.contains("ifstart_is_zero&&!value.is_zero(){returnErr(LexicalError{error:LexicalErrorType::OtherError(\"Invalid Token\".to_owned()),location:self.get_pos(),});}") {
+    if t.contains("letstart_is_zero=self.window[0]==Some('0');") && t.contains("ifstart_is_zero&&!value.is_zero(){returnErr(LexicalError{error:LexicalErrorType::OtherError(\"Invalid Token\".to_owned()),location:self.get_pos()});}") {
         cx.ok(rule, "leading-zero decimal literal with non-zero value rejected");
     } else {
         cx.fail(rule, &format!("{}/leading-zero", rule), &lx.loc(f), "the leading-zero check is missing or altered");
     }
     match lr::lexer_method(&lx, "lex_number_radix") {
-        Some(r) if sm::tsx(&r.block).contains("BigInt::from_str_radix(&value_text,radix).map_err(|e|LexicalError{error:LexicalErrorType::OtherError(format!(\"{e:?}\")),location:start_pos,})?") => cx.ok(rule, "radix literal: from_str_radix error (incl. empty digit run) mapped to a LexicalError at start_pos"),
+        Some(r) if sm::tsx(&r.block).contains("BigInt::from_str_radix(&value_text,radix).map_err(|e|LexicalError{error:LexicalErrorType::OtherError(format!(\"{e:?}\")),location:start_pos})?") => cx.ok(rule, "radix literal: from_str_radix error (incl. empty digit run) mapped to a LexicalError at start_pos"),
         Some(r) => cx.fail(rule, &format!("{}/radix-error", rule), &lx.loc(r), "lex_number_radix does not map the big-integer parse error to a LexicalError at the literal's start"),
         None => cx.anchor_missing(rule, "lex_number_radix"),
     }
@@ -657,7 +657,7 @@ fn string_rules(cx: &mut Ctx) {
     };
     if let Some(ps) = s.free_fns("parse_strings").into_iter().next() {
         let t = sm::tsx(&ps.block);
-        let p_mix = t.find("ifhas_bytes&&num_bytes<values.len(){returnErr(LexicalError{error:LexicalErrorType::OtherError(\"cannot mix bytes and nonbytes literals\".to_owned(),),location:initial_start,});}");
+        let p_mix = t.find("ifhas_bytes&&num_bytes<values.len(){returnErr(LexicalError{error:LexicalErrorType::OtherError(\"cannot mix bytes and nonbytes literals\".to_owned()),location:initial_start});}");
         let p_dec = t.find("parse_string(");
         let defs = t.contains("letnum_bytes=values.iter().filter(|(_,(_,kind,..),_)|kind.is_any_bytes()).count();lethas_bytes=0<num_bytes;");
         match (p_mix, p_dec) {
@@ -725,7 +725,7 @@ fn error_kind_mapping(cx: &mut Ctx, g: &Grammar) {
         cx.fail(rule, &format!("{}/extern-indent", rule), "parser/src/python.lalrpop", &format!("the INDENT terminal is named {:?}; parser.rs compares with \"Indent\"", indent_name));
     }
     match p.method("ParseErrorType", "is_indentation_error") {
-        Some(m) if sm::tsx(&m.block) == "{matchself{ParseErrorType::Lexical(LexicalErrorType::IndentationError)=>true,ParseErrorType::UnrecognizedToken(token,expected)=>*token==Tok::Indent||expected.clone()==Some(\"Indent\".to_owned()),_=>false,}}" => cx.ok(rule, "is_indentation_error: IndentationError | unexpected Indent | expected \"Indent\""),
+        Some(m) if sm::tsx(&m.block) == "{matchself{ParseErrorType::Lexical(LexicalErrorType::IndentationError)=>true,ParseErrorType::UnrecognizedToken(token,expected)=>*token==Tok::Indent||expected.clone()==Some(\"Indent\".to_owned()),_=>false}}" => cx.ok(rule, "is_indentation_error: IndentationError | unexpected Indent | expected \"Indent\""),
         Some(m) => cx.fail(rule, &format!("{}/is_indentation_error", rule), &p.loc(m), "is_indentation_error does not name exactly the indentation kinds"),
         None => cx.anchor_missing(rule, "is_indentation_error"),
     }
